@@ -396,29 +396,49 @@ package raft
 //@   maypanic OpError
 //@   ensures [C04.get] e.index == index && e.term == s.gterm[index] && e.typ == s.gtyp[index]
 
-//@ func (*storage).appendEntry
+// appendEntry / removeGTE / commitLog are proved against abstract views of the log API (T-abs); the ghost log
+// of the node (storage.gterm / gtyp: term and type per index; storage.flushed) is updated by ghost assignments
+// that use the ARGUMENTS the log calls were actually made with.
+//@ view (*log.Log).Append at (*storage).appendEntry
+//@   modifies l.glast
+//@   ensures result0 == nil ==> l.glast == old(l.glast) + 1
+//@   ensures result0 != nil ==> l.glast == old(l.glast)
+// T-std: writing to a bytes.Buffer cannot fail
+//@ view (*entry).encode at (*storage).appendEntry
+//@   modifies wdata, wlen
+//@   ensures result0 == nil
+//@ func (*bytes.Buffer).Bytes
 //@   trusted
+//@ func (*storage).appendEntry
 //@   requires [C04.append-contiguous] e.index == s.lastLogIndex + 1
-//@   requires s.log != nil
-//@   modifies s.lastLogIndex, s.lastLogTerm, s.gterm, s.gtyp, s.log.glast
+//@   requires s.log != nil && s.log.glast == s.lastLogIndex
+//@   modifies s.lastLogIndex, s.lastLogTerm, s.gterm, s.gtyp, s.log.glast, wdata, wlen
 //@   maypanic OpError
 //@   ensures s.lastLogIndex == e.index && s.lastLogTerm == e.term && s.log.glast == e.index
 //@   ensures s.gterm[e.index] == e.term && s.gtyp[e.index] == e.typ
 //@   ensures forall(i, i != e.index ==> s.gterm[i] == old(s.gterm[i]) && s.gtyp[i] == old(s.gtyp[i]))
+//@   ghostcode after call Append 1: s.gterm[e.index] := e.term
+//@   ghostcode after call Append 1: s.gtyp[e.index] := e.typ
 
+//@ view (*log.Log).RemoveGTE at (*storage).removeGTE
+//@   requires [C13.remove-range] l.gprev < i
+//@   modifies l.glast
+//@   ensures result0 == nil ==> l.glast == ite(i > old(l.glast), old(l.glast), i - 1)
 //@ func (*storage).removeGTE
-//@   trusted
-//@   requires [C02.truncate-above-snapshot] s.log != nil && s.log.gprev < index && index <= s.lastLogIndex
+//@   requires [C02.truncate-above-snapshot] s.log != nil && s.log.gprev < index && index <= s.lastLogIndex && s.log.glast == s.lastLogIndex
 //@   modifies s.lastLogIndex, s.lastLogTerm, s.flushed, s.log.glast
 //@   maypanic OpError
 //@   ensures s.lastLogIndex == index - 1 && s.lastLogTerm == prevTerm && s.log.glast == index - 1 && s.flushed == index - 1
+//@   ghostcode after call RemoveGTE 1: s.flushed := arg1 - 1
 
+//@ view (*log.Log).CommitN at (*storage).commitLog
+//@   ensures true
 //@ func (*storage).commitLog
-//@   trusted
-//@   requires s.log != nil
+//@   requires s.log != nil && s.flushed <= s.lastLogIndex
 //@   modifies s.flushed
 //@   maypanic OpError
 //@   ensures s.flushed >= old(s.flushed) && s.flushed <= s.lastLogIndex && (n <= s.lastLogIndex ==> s.flushed >= n) && (n >= s.lastLogIndex ==> s.flushed == s.lastLogIndex)
+//@   ghostcode after call CommitN 1: s.flushed := ite(arg1 >= s.lastLogIndex, s.lastLogIndex, ite(arg1 > s.flushed, arg1, s.flushed))
 
 //@ func (*Raft).applyCommitted
 //@   nilable ne
